@@ -115,6 +115,8 @@ func (pq *pqList) Expire(now time.Time) []interface{} {
 			return out
 		}
 		expired := heap.Pop(&pq.pq).(*bucket)
+		// the bucket left the heap: a later insert for the same second must create a new one
+		delete(pq.buckets, expired.deadline)
 		for _, v := range expired.data {
 			out = append(out, v.value)
 		}
